@@ -160,6 +160,20 @@ impl<'a> TableBuilder<'a> {
         item: &'a StateItem,
         action: Action,
     ) -> Result<(), KikiErr> {
+        #[cfg(feature = "verif")]
+        crate::verif::record(|| crate::verif::Event::SetAction {
+            state: state_index.0,
+            quasiterminal: match quasiterminal {
+                Quasiterminal::Terminal(t) => Some(t.raw().to_owned()),
+                Quasiterminal::Eof => None,
+            },
+            action,
+            outcome: match self.actions.get(&(state_index, quasiterminal)) {
+                None => 0,
+                Some((_, existing)) if *existing == action => 1,
+                Some(_) => 2,
+            },
+        });
         if let Some((existing_item, existing_action)) =
             self.actions.get(&(state_index, quasiterminal))
         {
@@ -216,6 +230,36 @@ impl<'a> TableBuilder<'a> {
 impl ImmutContext<'_> {
     fn build_as_is(&self, builder: TableBuilder) -> Table {
         let mut table = get_empty_table(self.machine, self.file);
+
+        #[cfg(feature = "verif")]
+        {
+            crate::verif::record(|| {
+                crate::verif::Event::FillOrder(
+                    builder
+                        .actions
+                        .keys()
+                        .map(|(state, quasiterminal)| {
+                            (
+                                state.0,
+                                match quasiterminal {
+                                    Quasiterminal::Terminal(t) => Some(t.raw().to_owned()),
+                                    Quasiterminal::Eof => None,
+                                },
+                            )
+                        })
+                        .collect(),
+                )
+            });
+            crate::verif::record(|| {
+                crate::verif::Event::GotoFillOrder(
+                    builder
+                        .gotos
+                        .keys()
+                        .map(|(state, nonterminal)| (state.0, (*nonterminal).to_owned()))
+                        .collect(),
+                )
+            });
+        }
 
         for ((state, quasiterminal), (_, action)) in builder.actions {
             table.set_action(state, quasiterminal, action);
